@@ -229,7 +229,7 @@ def link_kinds_at(path, pl):
 
 
 # triggers of defects still present in /repo (set by the probes at the start of a run): the random histories avoid them
-AVOID = {"afn_overwrite": False, "pzone_integral": False, "pit": False, "stale_array": False}
+AVOID = {"afn_overwrite": False, "pzone_integral": False, "pit": False, "stale_array": False, "active_zconn": False}
 # parents whose arrays cgi_read_array does NOT load into memory when the file is opened
 NOCACHE = {"GridCoordinates_t", "FlowSolution_t", "Elements_t", "ZoneSubRegion_t", "DiscreteData_t", "ParticleCoordinates_t",
            "ParticleSolution_t", "UserDefinedData_t"}
@@ -260,7 +260,7 @@ class Ref:
 
     @staticmethod
     def _new(label):
-        return {"label": label, "names": {}, "file": [], "slots": {}}
+        return {"label": label, "names": {}, "file": [], "slots": {}, "blobs": []}
 
     def drop(self, path):
         for k in [k for k in self.nodes if k == path or k.startswith(path + "/")]:
@@ -311,6 +311,14 @@ class Ref:
             return 1
         nd["names"][name] = (label, ident)
         nd["file"].append(name)
+        return 0
+
+    def raw(self, path, pl, name, p):
+        """a node the mid-level library does not interpret (label Blob_t), created through cgio: the file has it"""
+        nd = self.nodes.get(path)
+        if nd is None or nd["label"] != pl or name in nd["names"] or name in [b[0] for b in nd["blobs"]]:
+            return 1
+        nd["blobs"].append((name, p))
         return 0
 
     def links(self):
@@ -390,6 +398,8 @@ class Ref:
         nd = self.nodes.get(path)
         if nd is None or nd["label"] != pl:
             return []
+        if label == "Blob_t":
+            return list(nd["blobs"])
         return [(n, nd["names"][n][1]) for n in nd["slots"].get(label, []) if n in nd["names"]]
 
     def file_view(self, path, label):
@@ -405,6 +415,8 @@ class Ref:
                 if nonempty_only and not nd["slots"].get(label):
                     continue
                 out.append((path, nd["label"], label))
+            if nd["blobs"]:
+                out.append((path, nd["label"], "Blob_t"))
         return out
 
 
@@ -431,7 +443,10 @@ def parse_view(line):
 
 # ----------------------------------------------------------------------------------------------- scripts
 def header(backend, path, compress):
-    return ["ft " + backend, "compress %d" % compress, "open w " + path, "w / CGNSTree_t CGNSBase_t B 1", "close", "open m " + path]
+    # zcmode keep: the harness selects a ZoneGridConnectivity_t container (cg_zconn_set) only when ANOTHER one is wanted -- the
+    # library must keep the selected container current while its siblings are deleted
+    return ["ft " + backend, "compress %d" % compress, "zcmode " + ("set" if AVOID["active_zconn"] else "keep"),
+            "open w " + path, "w / CGNSTree_t CGNSBase_t B 1", "close", "open m " + path]
 
 
 def donor_plan(pl, label, gen):
@@ -470,10 +485,10 @@ def donor_lines(ops, target, gen):
     return ["open w " + target, "w / CGNSTree_t CGNSBase_t B 1", "close", "open m " + target] + body + ["close"]
 
 
-def expand(ops, backend, fpath, compress, full_every=None):
+def expand(ops, backend, fpath, compress, full_every=None, sparse=0):
     """ops (w/u/d/mk/reopen/ln tuples) -> (script lines, expectations) where expectations[i] describes what line i must be.
-    After every op the views of all kinds under the op's parent and of every non-empty group are taken; around a reopen
-    every group of every live node is viewed.  ("ln", path, pl, label, name, "D" | "", target path) = cg_link_write (into the
+    After every op (sparse = N: after every N-th op only) the views of all kinds under the op's parent and of every non-empty
+    group are taken; around a reopen every group of every live node is viewed.  ("ln", path, pl, label, name, "D" | "", target path) = cg_link_write (into the
     second file / the same file) followed by cg_close + cg_open; "lnraw" = without that.  When a link into the second file
     occurs, that file is written first and written AGAIN, with other payloads, between the last cg_close and the fresh open."""
     ref = Ref()
@@ -511,6 +526,12 @@ def expand(ops, backend, fpath, compress, full_every=None):
                 lines.append("reopen m")
                 exp.append(("o", 0, k))
             near = [(path, pl, l) for l, _, _ in kinds_at(path, pl)] if path in ref.nodes else []
+        elif op[0] == "raw":
+            _, path, pl, name, p = op
+            st = ref.raw(path, pl, name, p)
+            lines.append("raw %s %s %s %d" % (path, pl, name, p))
+            exp.append(("l", st, k))
+            near = [(path, pl, "Blob_t")] if path in ref.nodes else []
         elif op[0] == "d":
             _, path, pl, name = op
             nd = ref.nodes.get(path)
@@ -540,6 +561,8 @@ def expand(ops, backend, fpath, compress, full_every=None):
             continue
         else:
             raise ValueError(op)
+        if sparse and k % sparse != sparse - 1:
+            continue                      # sparse views: state the library keeps BETWEEN calls is not refreshed by reads
         seen = set()
         gs = []
         for g in near + ref.groups(nonempty_only=True):
@@ -649,7 +672,7 @@ def evaluate(ops, lines, exp, out, outcome):
             snap_cur[g] = v
             if tag[0] == "after" and g in snap_prev:
                 op = ops[tag[1]]
-                tpath, tname = (op[1], op[4]) if op[0] in ("w", "u", "ln", "lnraw") else (op[1], op[3]) if op[0] == "d" else (None, None)
+                tpath, tname = (op[1], op[4]) if op[0] in ("w", "u", "ln", "lnraw") else (op[1], op[3]) if op[0] in ("d", "raw") else (None, None)
                 sub = join(tpath, tname) if tpath else None
                 if sub and (g[0] == sub or g[0].startswith(sub + "/")):
                     continue
@@ -682,6 +705,8 @@ def links_well_formed(ops):
             ref.mk(op[1], op[4])
         elif op[0] == "reopen":
             ref.reopen()
+        elif op[0] == "raw":
+            ref.raw(op[1], op[2], op[3], op[4])
         elif op[0] in ("ln", "lnraw"):
             if op[5] == "" and not exists(op[6]):
                 return False
@@ -705,10 +730,10 @@ def lines_of_op(op):
     return " ".join(str(x) for x in op)
 
 
-def run_case(exe, ops, backend, fpath, compress):
+def run_case(exe, ops, backend, fpath, compress, sparse=0):
     if os.path.exists(fpath):
         os.unlink(fpath)
-    lines, exp = expand(ops, backend, fpath, compress)
+    lines, exp = expand(ops, backend, fpath, compress, sparse=sparse)
     out, outcome = vlib.run_impl(exe, "\n".join(lines) + "\n", timeout=300)
     for f in (donor_file(fpath), donor_file(fpath) + ".new", fpath + ".temp"):
         if os.path.exists(f):
@@ -790,6 +815,8 @@ class Gen:
             self.ref.mk(op[1], op[4])
         elif op[0] == "reopen":
             self.ref.reopen()
+        elif op[0] == "raw":
+            self.ref.raw(op[1], op[2], op[3], op[4])
         elif op[0] in ("ln", "lnraw"):
             self.ref.link(op[1], op[2], op[3], op[4], "@%s|%s" % ("<D>" if op[5] == "D" else "", op[6]))
             if op[0] == "ln":
@@ -843,6 +870,12 @@ class Gen:
                 self.mk_done.add((path, m[0], m[1]))
                 self.emit(mk_op(path, m))
                 return
+        if pl != "CGNSTree_t" and self.rng.random() < 0.05:
+            # a node of one of the ten data types that the mid-level library does not interpret (through cgio)
+            self.counter += 1
+            self.emit(("raw", path, pl, "Ty%d_%d" % (self.rng.randrange(10), self.counter), self.payload(None)))
+            self.note(pl, "Blob_t", "create")
+            return
         if pl == "Zone_t" and join(path, "ZoneBC") not in self.ref.nodes and self.rng.random() < 0.3:
             self.emit(("w", join(path, "ZoneBC"), "ZoneBC_t", "BC_t", self.fresh_name("BC_t"), self.payload(None)))
             self.note("ZoneBC_t", "BC_t", "create")
@@ -1169,7 +1202,7 @@ def model_lines(lines, out, exp=None):
             for g in exp[i][3]:
                 ml.append("drop " + g)
             continue
-        if t[0] in ("w", "u", "d", "v", "reopen", "ln"):
+        if t[0] in ("w", "u", "d", "v", "reopen", "ln", "raw"):
             ml.append(l); il.append(o)
     return ml, il
 
@@ -1218,6 +1251,15 @@ def attr_targets():
             continue
         ops, path = r
         out.append(("units under %s" % pl, "DimensionalUnits_t", ops, [("mk", path, "unitsfull", None, [])], [("mk", path, "units", None, [])],
+                    path + " noattach"))
+    # single-valued attributes of the index API written twice with different values (the second call must replace the first)
+    for what, pl, lab in (("simtype", "CGNSBase_t", "SimulationType_t"), ("simtype2", "CGNSBase_t", "SimulationType_t"),
+                          ("bocoloc", "BC_t", "GridLocation_t")):
+        r = route_ops(pl)
+        if r is None:
+            continue
+        ops, path = r
+        out.append(("attribute %s under %s" % (what, pl), lab + ":" + what, ops, [("mk", path, what, None, [])], [("mk", path, what, None, [])],
                     path + " noattach"))
     seen = set()
     for pl in sorted(CAT):
@@ -1279,8 +1321,11 @@ def attr_case(exe, work, backend, target):
            or (l.startswith("reopen") and o != "o 0")]
     bad += [l for l, o in zip(sb, ob) if (l.startswith(("w ", "mk ", "open", "close")) and not o.startswith(("w 0", "c 0")))
             or (l.startswith("reopen") and o != "o 0")]
-    if bad:
+    if bad and not tag.startswith("attribute "):
         return [{"class": "status", "target": tag, "lines": bad[:3]}], [], (sa, oa, sb, ob)
+    if bad:           # a single-valued attribute written a second time: the refusal is one failure, what the views show another
+        fails.append({"class": "attr-refused", "oracle": "ideal: writing an attribute again replaces it", "target": tag, "lines": bad[:3],
+                      "answers": [o for l, o in zip(sb, ob) if l.startswith("mk ")]})
     fa_ = [o for o in oa if o.startswith("f ")]
     fb_ = [o for o in ob if o.startswith("f ")]
     att = [o for o in ob if o.startswith("a")][0].split()[1:] if any(o.startswith("a") for o in ob) else ["(first write differs)"]
@@ -1346,6 +1391,7 @@ def run(ck):
     work = ck.work
     state = {"n": 0, "hard": 0, "found": 0}
     AVOID["afn_overwrite"] = AVOID["pzone_integral"] = AVOID["pit"] = AVOID["stale_array"] = False
+    AVOID["active_zconn"] = True           # until the probe below has run: cg_zconn_set before every call
     reported = set()
 
     def finding(key, replay_dict):
@@ -1365,7 +1411,7 @@ def run(ck):
     tables = {"shadowed": [], "no_block": [], "unsound": [], "kinds": {}, "verdicts": {}, "bad_nrow": [], "bad_dblock": [], "bad_wrow": []}
     for l in tl:
         t = l.split()
-        if t[0] in ("delete_table_ok", "write_table_ok", "addr_tails_ok", "link_writer_ok", "copy_keeps_links", "general_write_mentions_cache"):
+        if t[0] in ("delete_table_ok", "write_table_ok", "addr_tails_ok", "link_writer_ok", "copy_keeps_links", "general_write_mentions_cache", "data_sizes_ok", "zconn_arm_keeps_current"):
             tables["verdicts"][t[0]] = t[1]
         elif t[0] == "link_parents":
             LINK_PARENTS.clear()
@@ -1409,10 +1455,10 @@ def run(ck):
     outside = [(pl, k[0]) for pl in CAT for k in CAT[pl] if pl in tables["kinds"] and k[0] not in tables["kinds"][pl]]
     ck.extra["catalogue_groups_outside_sound_kinds"] = outside
 
-    def exec_case(ops, backend, compress, name):
+    def exec_case(ops, backend, compress, name, sparse=0):
         state["n"] += 1
         fpath = os.path.join(work, "%s%d_%s.cgns" % (name, state["n"], backend))
-        lines, exp, out, outcome = run_case(exe, ops, backend, fpath, compress)
+        lines, exp, out, outcome = run_case(exe, ops, backend, fpath, compress, sparse)
         if os.path.exists(fpath):
             os.unlink(fpath)
         return lines, exp, out, outcome
@@ -1426,7 +1472,7 @@ def run(ck):
             corr_broken.append({"ops": ser(ops), "history": [lines_of_op(o) for o in ops], "backend": backend, "compress": compress,
                                 "first_divergence": {"line": ml[d[0]] if d and d[0] < len(ml) else None, "model": d[1], "impl": d[2]} if d else None})
 
-    def report(ops, backend, compress, fails, tag):
+    def report(ops, backend, compress, fails, tag, sparse=0):
         """shrink and report a failing history"""
         def sig(f):
             g = f.get("group")
@@ -1436,20 +1482,21 @@ def run(ck):
         def still(sub):
             if not links_well_formed(sub):
                 return False
-            l2, e2, o2, oc2 = exec_case(sub, backend, compress, "shrink")
+            l2, e2, o2, oc2 = exec_case(sub, backend, compress, "shrink", sparse)
             f2 = evaluate(sub, l2, e2, o2, oc2)
             return bool(f2) and order_by_design(sub, f2) is None and any(sig(f) == want for f in f2)
         small = vlib.ddmin(ops, still, max_tests=120) if len(ops) > 3 else list(ops)
-        l2, e2, o2, oc2 = exec_case(small, backend, compress, "shrink")
+        l2, e2, o2, oc2 = exec_case(small, backend, compress, "shrink", sparse)
         f2 = evaluate(small, l2, e2, o2, oc2) or fails
-        hard({"level": "api", "backend": backend, "compress": compress, "ops": ser(small),
+        hard({"level": "api", "backend": backend, "compress": compress, "sparse": sparse,
+              "harness_mode": "zcmode set" if AVOID["active_zconn"] else "zcmode keep", "ops": ser(small),
                       "history": [lines_of_op(o) for o in small], "failures": f2[:4], "class": f2[0]["class"], "found_by": tag,
                       "failures_before_shrinking": fails[:2],
                       "replay_hint": "./check C04 --replay <this file>"})
 
-    def probe(ops, backend, kind, sample_extra=None):
+    def probe(ops, backend, kind, sample_extra=None, sparse=0):
         dist["probes"] += 1
-        lines, exp, out, outcome = exec_case(ops, backend, 0, "probe")
+        lines, exp, out, outcome = exec_case(ops, backend, 0, "probe", sparse)
         fails = evaluate(ops, lines, exp, out, outcome)
         ck.case(None, sample=dict({"kind": "probe " + kind, "backend": backend}, **(sample_extra or {})))
         return fails, lines, out, outcome
@@ -1502,6 +1549,9 @@ def run(ck):
         static_broken.append({"broken_obligation": "cg_link_write is no longer the function Mirror.link_new transcribes (its calls, the "
                                                    "lvalues it changes or its white list changed)", "bad_parents": tables.get("bad_link_parent", []),
                               "table": "Gen_C04.link_parents / link_calls / link_assigns"})
+    if tables["verdicts"].get("data_sizes_ok") != "true":
+        static_broken.append({"broken_obligation": "cgio_compute_data_size no longer returns the element size of every data type (the node "
+                                                   "copy of compress-on-close moves that many bytes per element)", "table": "Gen_C04.data_size_rows"})
     if tables["verdicts"].get("copy_keeps_links") != "true":
         static_broken.append({"broken_obligation": "the tree copy behind compress-on-close (cgns_io.c recurse_nodes) does not create every "
                                                    "link again as a link", "table": "Gen_C04.copy_link_guard / Mirror.copy_keeps_links"})
@@ -1665,6 +1715,10 @@ def run(ck):
                     sample={"kind": "overwrite vs attributes", "target": target[0], "backend": backend, "attached": attached})
             ck.cov["traces_validated_against_impl"] += 1
             attr_cov[target[0]] = sorted(set(attr_cov.get(target[0], [])) | set(attached))
+            if fails and target[0].startswith("attribute ") and any(f["class"] == "attr-refused" for f in fails):
+                finding("attribute-rewrite-refused:%s" % target[1],
+                        {"attr_target": target[0], "backend": backend, "failures": fails[:4], "script_overwrite": raw[2], "history": raw[2]})
+                fails = []
             for f in fails:
                 rep = {"attr_target": target[0], "backend": backend, "failure": f, "script_fresh": raw[0], "script_overwrite": raw[2],
                        "history": raw[2]}
@@ -1676,8 +1730,8 @@ def run(ck):
                     hard(dict(rep, **{"class": f["class"], "found_by": "overwrite vs attributes"}))
     ck.extra["overwrite_vs_attributes"] = {"targets": len(atts), "attached": attr_cov}
 
-    def one(ops, backend, compress, tag):
-        lines, exp, out, outcome = exec_case(ops, backend, compress, "h")
+    def one(ops, backend, compress, tag, sparse=0):
+        lines, exp, out, outcome = exec_case(ops, backend, compress, "h", sparse)
         fails = evaluate(ops, lines, exp, out, outcome)
         for o in ops:
             dist["ops"][o[0]] = dist["ops"].get(o[0], 0) + 1
@@ -1705,6 +1759,35 @@ def run(ck):
         if not fails and outcome == "ok":
             correspond(ops, backend, compress, lines, out, exp)
         return fails
+
+    # the current ZoneGridConnectivity_t container (cg_zconn_set) while a sibling container is deleted: with `zcmode keep` the
+    # harness does not select ZB again after ZA is gone; the connectivity written next must land in ZB
+    zsaid = tables["verdicts"].get("zconn_arm_keeps_current")
+    zseen = False
+    for backend in ("adf", "hdf5"):
+        AVOID["active_zconn"] = False
+        ZG, GC = "ZoneGridConnectivity_t", "GridConnectivity_t"
+        ops = [("w", "/B", "CGNSBase_t", "Zone_t", "Z0", 5), ("w", "/B/Z0", "Zone_t", ZG, "ZA", 1), ("w", "/B/Z0", "Zone_t", ZG, "ZB", 2),
+               ("w", "/B/Z0", "Zone_t", ZG, "ZC", 3), ("w", "/B/Z0/ZB", ZG, GC, "CnB1", 7), ("d", "/B/Z0", "Zone_t", "ZA"),
+               ("w", "/B/Z0/ZB", ZG, GC, "CnB2", 8), ("w", "/B/Z0/ZC", ZG, GC, "CnC", 9)]
+        # (views after every 4th op only: nothing is read between `w CnB1` -- the harness selects ZB --, `d ZA` and `w CnB2`)
+        fails, lines, out, outcome = probe(ops, backend, "current ZoneGridConnectivity_t across a deletion", sparse=4)
+        if fails and all(f.get("group", ("",))[0].startswith("/B/Z0/Z") or f["class"] == "status" for f in fails):
+            zseen = True
+            finding("active-zconn-follows-index-after-delete",
+                    {"ops": ser(ops), "history": [lines_of_op(o) for o in ops], "backend": backend, "failures": fails[:3],
+                     "harness_mode": "zcmode keep", "sparse": 4,
+                     "what": "the current ZoneGridConnectivity_t node is remembered as an INDEX (zone->active_zconn): after "
+                             "cg_zconn_set selected ZB among ZA, ZB, ZC, cg_delete_node(ZA) leaves the index at 2, which is now ZC: "
+                             "cg_conn_write / cg_nconns / ... address ZC"})
+        elif fails:
+            report(ops, backend, 0, fails, "probe current ZoneGridConnectivity_t across a deletion", sparse=4)
+        elif outcome == "ok":
+            correspond(ops, backend, 0, lines, out)
+    AVOID["active_zconn"] = zseen            # while the defect is present the histories select the container before every call
+    if zsaid is not None and (zsaid == "false") != zseen:
+        corr_broken.append({"probe": "Mirror.zconn_arm_keeps_current = %s but the current container %s across a deletion on the "
+                                     "implementation" % (zsaid, "changes" if zseen else "stays")})
 
     # cg_array_general_write on an array the library loaded when it opened the file (the witness of
     # C04_cached_array_not_refreshed_diverges): the table says whether cgi_array_general_write mentions array->data at all
@@ -1734,6 +1817,40 @@ def run(ck):
         if (says == "false") != stale_seen:
             corr_broken.append({"probe": "Gen_C04.general_write_mentions_cache = %s but the in-place rewrite of a loaded array %s on the "
                                          "implementation" % (says, "diverges" if stale_seen else "does not diverge")})
+
+    # ---- (t) every data type through the rewrite of the file: arrays of the seven types of the mid-level library under a parent
+    # whose arrays are loaded at open (IntegralData_t) and one whose arrays are not (UserDefinedData_t), in 1-D and 2-D shapes,
+    # nodes of all ten types of the database created through cgio (U4, U8, B1 included), descriptors of 1..40 characters; an
+    # unrelated deletion, cg_close + cg_open (with compress-on-close the whole file is copied node by node), in-place rewrites
+    # and overwrites, the fresh open.  EVERY byte is verified by the harness on every view.
+    tcombos = [("adf", 1), ("hdf5", -1), ("hdf5", 1), ("adf", -1), ("adf", 0), ("hdf5", 0)]
+    for ti_, (backend, compress) in enumerate(tcombos if big else tcombos[:4]):
+        if state["hard"]:
+            break
+        U1, I1 = "/B/U1", "/B/I1"
+        ops = [("w", "/B", "CGNSBase_t", U, "U1", 3), ("w", "/B", "CGNSBase_t", I, "I1", 4)]
+        for k in range(7):
+            for sfx in ("x", "yy", "zzz"):
+                ops.append(("w", U1, U, A, "Ty%d%s" % (k, sfx), 1000 + 100 * k + len(sfx)))
+                ops.append(("w", I1, I, A, "Ty%d%s" % (k, sfx), 2000 + 100 * k + len(sfx)))
+        for k in range(10):
+            ops.append(("raw", U1, U, "Ty%dr" % k, 3000 + k))
+            ops.append(("raw", "/B", "CGNSBase_t", "Ty%dbb" % k, 4000 + k))
+        ops += [("w", "/B", "CGNSBase_t", D, "De1", 39), ("w", "/B", "CGNSBase_t", D, "De2", 7), ("w", U1, U, D, "De3", 9999),
+                ("d", "/B", "CGNSBase_t", "De2"), ("reopen", "m")]
+        for k in range(7):
+            ops.append(("u", I1, I, A, "Ty%dx" % k, 5000 + k))            # in place, loaded at open
+            ops.append(("u", U1, U, A, "Ty%dyy" % k, 6000 + k))           # in place, not loaded
+            ops.append(("w", I1, I, A, "Ty%dzzz" % k, 7000 + k))          # deleted and created again
+        ops += [("raw", I1, I, "Ty8late", 8000), ("d", "/B", "CGNSBase_t", "De1")]
+        if AVOID["stale_array"]:
+            ops = [o for o in ops if not (o[0] == "u" and o[1] == I1)]
+        dist["types"] = dist.get("types", 0) + 1
+        covered.setdefault("%s/%s" % (U, A), set()).update({"create", "overwrite", "rewrite", "all-types"})
+        covered.setdefault("%s/%s" % (I, A), set()).update({"create", "overwrite", "rewrite", "all-types"})
+        fails = one(ops, backend, compress, "every data type")
+        if fails:
+            report(ops, backend, compress, fails, "every data type")
 
     # ---- (l) links: under every parent label cg_link_write accepts, a link into a second file, a link to a sibling in the same
     # file and a second link that is deleted again, with edits of the siblings around them; cg_close + cg_open in the middle
@@ -1856,9 +1973,10 @@ def run(ck):
         dist["max_groups"] = max(dist["max_groups"], len(g.ref.groups(nonempty_only=True)))
         for k, v in g.touched.items():
             covered.setdefault("%s/%s" % k, set()).update(v)
-        fails = one(g.ops, backend, compress, "random")
+        sp = 3 if j % 3 == 1 else 0          # a third of them with views after every third op only
+        fails = one(g.ops, backend, compress, "random", sp)
         if fails:
-            report(g.ops, backend, compress, fails, "random")
+            report(g.ops, backend, compress, fails, "random", sp)
             stop = True
 
     ck.extra["covered_groups"] = {k: sorted(v) for k, v in sorted(covered.items())}
@@ -1910,7 +2028,8 @@ def replay(ck, path):
     if "ops" not in r:
         print("replay names a broken obligation/correspondence, no input to run:", json.dumps(r)[:600]); return 1
     ops = deser(r["ops"])
-    lines, exp, out, outcome = run_case(exe, ops, r["backend"], os.path.join(ck.work, "replay.cgns"), r.get("compress", 0))
+    AVOID["active_zconn"] = r.get("harness_mode") != "zcmode keep"
+    lines, exp, out, outcome = run_case(exe, ops, r["backend"], os.path.join(ck.work, "replay.cgns"), r.get("compress", 0), r.get("sparse", 0))
     fails = evaluate(ops, lines, exp, out, outcome)
     if r.get("finding_key"):
         print("replay of finding %s: the implementation %s: %s" % (r["finding_key"], "still diverges" if fails else "no longer diverges",
